@@ -703,6 +703,28 @@ pub fn step_case_ex<Q: Rep>(tc: &TC<Q>, script_seed: u64, bisect: bool, hist: &s
         if dec_tokens.is_empty() { "-".to_string() } else { dec_tokens.join(" ") }
     );
     let nontrivial = n_eval > 0 || (n_acc > 0 && n_rej > 0) || decs.iter().any(|d| !d.accepted);
+    {
+        let mut no_table = 0u64;
+        let mut beyond = 0u64;
+        for (q, _) in tc.graph_ref() {
+            let j = q.q.json();
+            let m = j.get("op_manager").or_else(|| j.get("manager"));
+            if let Some(m) = m {
+                if m.get("bond_counters").map(|b| b.is_null()).unwrap_or(false) {
+                    no_table += 1;
+                    // operators stored at imaginary-time positions p > n
+                    let nn = q.q.get_n();
+                    let s = q.q.slots();
+                    let ops = s.split(':').nth(1).unwrap_or("");
+                    if ops.split('+').filter(|t| !t.is_empty()).any(|t| t.split('@').next().and_then(|p| p.parse::<usize>().ok()).map(|p| p > nn).unwrap_or(false)) {
+                        beyond += 1;
+                    }
+                }
+            }
+        }
+        stat(&format!("{}.replicas_without_count_table", Q::KIND), no_table);
+        stat(&format!("{}.tableless_replicas_with_ops_beyond_n", Q::KIND), beyond);
+    }
     stat(&format!("{}.replicas_{}", Q::KIND, n), 1);
     stat(&format!("{}.decisions_evaluated", Q::KIND), n_eval);
     stat(&format!("{}.decisions_hameq_shortcut", Q::KIND), decs.len() - n_eval);
@@ -730,13 +752,20 @@ pub struct IsingSpec {
     pub cutoff: usize,
     pub heatbath: bool,
     pub rvb: bool,
+    /// build the operator manager WITHOUT a per-bond counter table (`FastOps::new_from_nvars` through
+    /// `new_with_rng_with_manager_hook`): `get_count` then walks the operator string
+    pub no_table: bool,
 }
 
 pub fn make_ising(s: &IsingSpec, seed: u64) -> IsingQ {
     let mut rng = SplitMix64::new(seed);
     let nvars = s.edges.iter().map(|((a, b), _)| (*a).max(*b)).max().unwrap() + 1;
     let state: Vec<bool> = (0..nvars).map(|_| rng.coin()).collect();
-    let mut q = IsingQ::new_with_rng(s.edges.clone(), s.gamma, s.h, s.cutoff, rng, Some(state));
+    let mut q = if s.no_table {
+        IsingQ::new_with_rng_with_manager_hook(s.edges.clone(), s.gamma, s.h, s.cutoff, rng, Some(state), |nvars, _nbonds| FastOps::new_from_nvars(nvars))
+    } else {
+        IsingQ::new_with_rng(s.edges.clone(), s.gamma, s.h, s.cutoff, rng, Some(state))
+    };
     if s.heatbath {
         q.set_enable_heatbath(true);
     }
@@ -775,6 +804,10 @@ pub fn ising_ladder(g: &mut SplitMix64, n: usize, kind: u64, allow_rvb: bool) ->
     let base_beta = g.range(2, 8) as f64 / 4.0;
     let heat = g.chance(1, 3);
     let uniform_j = g.chance(1, 3);
+    // 0: all managers carry the count table, 1: none does, 2: mixed ladder
+    let table_mode = g.below(3);
+    // generous cutoffs for some ladders: low operator density, many operators at positions p > n
+    let roomy = g.chance(1, 3);
     let mut out: Vec<IsingSpec> = vec![];
     for i in 0..n {
         let repeat = kind == 5 && i > 0 && g.chance(1, 2);
@@ -783,7 +816,7 @@ pub fn ising_ladder(g: &mut SplitMix64, n: usize, kind: u64, allow_rvb: bool) ->
             if g.coin() {
                 s.beta = g.range(1, 8) as f64 / 4.0;
             }
-            s.cutoff = 1 + g.below(6) as usize;
+            s.cutoff = if roomy { 24 + g.below(40) as usize } else { 1 + g.below(6) as usize };
             out.push(s);
             continue;
         }
@@ -821,9 +854,14 @@ pub fn ising_ladder(g: &mut SplitMix64, n: usize, kind: u64, allow_rvb: bool) ->
             gamma,
             h,
             beta,
-            cutoff: 1 + g.below(6) as usize,
+            cutoff: if roomy { 24 + g.below(40) as usize } else { 1 + g.below(6) as usize },
             heatbath: heat && g.chance(3, 4),
             rvb: allow_rvb && uniform_j && !vary_j && g.chance(1, 2),
+            no_table: match table_mode {
+                0 => false,
+                1 => true,
+                _ => g.coin(),
+            },
         });
     }
     out
@@ -1046,7 +1084,7 @@ pub fn mode_pairs(seed: u64, thorough: bool) {
                     (*e, j)
                 })
                 .collect();
-            IsingSpec { edges, gamma: g.range(1, 8) as f64 / 4.0, h: 0.0, beta: g.range(1, 8) as f64 / 4.0, cutoff: 1 + g.below(5) as usize, heatbath: false, rvb: false }
+            IsingSpec { edges, gamma: g.range(1, 8) as f64 / 4.0, h: 0.0, beta: g.range(1, 8) as f64 / 4.0, cutoff: 1 + g.below(5) as usize, heatbath: false, rvb: false, no_table: g.chance(1, 2) }
         };
         let mut a = mk(&mut g, &graph, None, None);
         let variant = c % 8;
@@ -1408,7 +1446,7 @@ fn main() {
 pub fn mode_mismatch(seed: u64) {
     let mut g = SplitMix64::new(seed ^ 0xbad);
     for trial in 0..4u64 {
-        let a = IsingSpec { edges: vec![((0, 1), 1.0), ((1, 2), 1.0)], gamma: 1.0, h: 0.0, beta: 1.0, cutoff: 4, heatbath: false, rvb: false };
+        let a = IsingSpec { edges: vec![((0, 1), 1.0), ((1, 2), 1.0)], gamma: 1.0, h: 0.0, beta: 1.0, cutoff: 4, heatbath: false, rvb: false, no_table: false };
         let mut b = a.clone();
         b.edges.push(((0, 2), 0.5 + 0.25 * trial as f64));
         let log = new_log();
